@@ -4,6 +4,8 @@ import json, os, subprocess
 
 VERIF = os.path.dirname(os.path.dirname(os.path.abspath(__file__)))
 
+COMMON = "Trusted: TLC, the Go driver's conversion between biogo values and specification records, Go's %v float formatting for GFF scores, record digests for files above 1.5 kB. Reader/spec disagreements outside what the property constrains are model drift, not verdicts."
+
 CHECKS = {
     "C11": dict(
         technique="TLA+ refinement check (TLC) of implementation-shaped sorter against abstract sorter; "
@@ -61,6 +63,43 @@ CHECKS = {
         note="Trusted: atomicity of hook-to-hook segments, goroutine identity via runtime.Stack, timing margins for "
              "'blocked' claims, non-nil fulfil values, relay promises judged on value only.",
         ref="DESIGN.md §6 C19"),
+    "C01": dict(
+        technique="byte-exact TLA+ writer and line-machine reader specifications; TLC checks the round-trip theorem on "
+                  "all tiny files and emits them for the real readers; real writer/reader runs judged by TLC",
+        text="Fasta.tla / Fastq.tla define the writers as byte-exact functions and the readers as state machines over "
+             "lines; TLC proves Read(Write(recs,cfg)) = recs for every record list of the bounded domain, all widths, "
+             "both '+'-line styles and both offsets, and every such file is also read by the real readers. Random "
+             "records are written by the real writers: FormatsTrace.tla accepts only if the bytes equal the writer "
+             "specification, every returned n equals the bytes emitted, and reading back returns the records; large "
+             "files (20 000 letters, widths above bufio's buffer) are compared by digests.",
+        note=COMMON, ref="DESIGN.md §6 C01-C04"),
+    "C02": dict(
+        technique="byte-exact TLA+ writer and field-level reader specifications for BED and GFF; TLC round-trip theorem "
+                  "on the bounded domain; real writer/reader runs judged by TLC",
+        text="Bed.tla / Gff.tla define the writers byte for byte (all five BED widths and every narrower width, GFF "
+             "features, sequence-region lines, inline sequences, header) with the 1-based/0-based conversion, and the "
+             "readers at field level; TLC proves the round trip incl. 'written at width w, read as its first r columns' "
+             "on the bounded domain; every file of the model and random files from the real writers are read by the "
+             "real readers and judged by FormatsTrace.tla (bytes, byte counts, records).",
+        note=COMMON, ref="DESIGN.md §6 C01-C04"),
+    "C03": dict(
+        technique="TLC enumerates damaged files (truncation at every offset, field/byte edits) of the bounded model; the "
+                  "reader specification must be total on them; the real readers are run on every one and judged by TLC",
+        text="From every base file TLC applies every truncation and every single field or byte edit; evaluating the reader "
+             "specification on each is the model-level totality check. The real readers are run on all of them and on "
+             "randomly damaged real files (numeric boundary values, deleted/duplicated columns and lines) under a panic "
+             "guard and a watchdog: FormatsTrace.tla rejects a panic, a hang, a (nil, nil) return, more than lines+1 calls "
+             "before EOF or an error, and a record where the specification classifies the line as structurally invalid.",
+        note=COMMON, ref="DESIGN.md §6 C01-C04"),
+    "C04": dict(
+        technique="layout transformations as TLA+ actions with invariant Read(text) = records; TLC explores all "
+                  "transformed files and emits them for the real readers; negative control for the dropped last line",
+        text="Formats.tla applies re-wrapping, blank lines, trailing blanks, CRLF and a missing final newline as actions "
+             "to every file of the bounded model and TLC checks that the reader specification still returns the records; "
+             "the as-found reader that drops an unterminated last line is refuted. Every transformed file is read by "
+             "the real readers, and random real files are re-laid-out (wrap widths up to 20 000, physical lines longer "
+             "than 4096 bytes) and read back; FormatsTrace.tla demands exactly the generating records.",
+        note=COMMON, ref="DESIGN.md §6 C01-C04"),
 }
 
 NOT_YET = {}
